@@ -103,11 +103,9 @@ func (c *deleteCleaner) applyMessagesLimit(segments []*segment) ([]*segment, err
 		cleanedSegments = append([]*segment{s}, cleanedSegments...)
 	}
 	if i > -1 {
-		// Collect segments to delete
-		toDelete := make([]*segment, 0, i+1)
-		for ; i > -1; i-- {
-			toDelete = append(toDelete, segments[i])
-		}
+		// Collect segments to delete, oldest first: if the run is interrupted
+		// between two removals the files left behind are a contiguous suffix.
+		toDelete := append([]*segment{}, segments[:i+1]...)
 		// Delete segments using mark-then-delete for consistency
 		if err := c.deleteSegments(toDelete); err != nil {
 			return nil, err
@@ -141,11 +139,9 @@ func (c *deleteCleaner) applyBytesLimit(segments []*segment) ([]*segment, error)
 		cleanedSegments = append([]*segment{s}, cleanedSegments...)
 	}
 	if i > -1 {
-		// Collect segments to delete
-		toDelete := make([]*segment, 0, i+1)
-		for ; i > -1; i-- {
-			toDelete = append(toDelete, segments[i])
-		}
+		// Collect segments to delete, oldest first: if the run is interrupted
+		// between two removals the files left behind are a contiguous suffix.
+		toDelete := append([]*segment{}, segments[:i+1]...)
 		// Delete segments using mark-then-delete for consistency
 		if err := c.deleteSegments(toDelete); err != nil {
 			return nil, err
